@@ -2884,9 +2884,14 @@ func calculateReconnectDelay(attempt int) time.Duration {
 		return 0
 	}
 	// Calculate the exponential backoff using the grow factor.
-	backoffDuration := time.Duration(float64(reconnectInitialDelay.Load()) * math.Pow(reconnectGrowFactor, float64(attempt-1)))
-	// Cap the backoffDuration at maxDelay.
-	backoffDuration = min(backoffDuration, reconnectMaxDelay)
+	// The cap is applied before the conversion: from the 58th attempt on the
+	// product no longer fits a time.Duration, and a negative delay would make
+	// rand.N panic.
+	backoff := float64(reconnectInitialDelay.Load()) * math.Pow(reconnectGrowFactor, float64(attempt-1))
+	backoffDuration := reconnectMaxDelay
+	if backoff < float64(reconnectMaxDelay) {
+		backoffDuration = time.Duration(backoff)
+	}
 
 	// Use a full jitter using backoffDuration
 	jitter := rand.N(backoffDuration)
